@@ -655,12 +655,17 @@ impl Database {
             let mut cursor = btree.cursor_first()?;
 
             let mut keys_to_delete: Vec<Vec<u8>> = Vec::new();
+            let mut live_rows: usize = 0;
             while cursor.valid() {
+                if !crate::database::dml::mvcc_helpers::is_tombstone(cursor.value()?) {
+                    live_rows += 1;
+                }
                 keys_to_delete.push(cursor.key()?.to_vec());
                 cursor.advance()?;
             }
 
-            let rows_affected = keys_to_delete.len();
+            // tombstones left by DELETE are removed with the rest but are not rows
+            let rows_affected = live_rows;
             total_rows_affected += rows_affected;
 
             let mut btree_mut = BTree::new(&mut *storage, root_page)?;
